@@ -26,6 +26,13 @@ SPEC = {
             "split of one fill per length and at 3 splits of the others. Concurrency stages: 8 threads per process (4 asan + 2 tsan "
             "processes), barrier start, each thread hashes its own inputs (lengths 0..130, 183..193, 247..257, 311..321, random to 64 KiB) "
             "for 150/1000 (asan) or 10/60 (tsan) rounds with all six functions and compares with the oracle's values. "
+            "Prior-history part (main stage): the catalogue of harness/vf_history.hh (~280 unrelated earlier uses of phosg's shared "
+            "helpers: string_printf of every length 0..132 and around powers of two, long runs of short outputs, join/split/fgets "
+            "ladders, escapers, formatters, hash hex) is spread over the 16 shards; for every prior and each of the three digest "
+            "orders a FRESH thread runs the prior and then 2 of 18 pool inputs (lengths at the padding/block boundaries .. 20000; "
+            "values from hashlib/zlib/recurrence) through MD5/SHA1/SHA256 hex()+bin() (both overloads, hex() repeated), crc32, "
+            "fnv1a32/64 (both overloads), the seeded forms and chaining pairs; plus 2 (quick) / 8 (thorough) two-step histories per "
+            "shard and order. Keys <fn>:<hex|bin|value|chain>:after-prior:<family>. "
             "distinct_nontrivial = distinct (len mod 64, block-count bucket) digest classes + input kind/fill/alignment + "
             "random-length offset classes + chaining (mode, cut position, size) classes.",
     "level_text": "Every message length 0..300 (all padding cases of the 64-byte block functions: 55/56/63/64/119/120...) is run "
@@ -59,6 +66,10 @@ SPEC = {
                          "chain:empty-piece:nullptr:start:*", "chain:empty-piece:nullptr:middle:running-value",
                          "chain:empty-piece:nullptr:end:running-value", "chain:empty-piece:valid-pointer:middle:*",
                          "chain:empty-piece:empty-string:start:default-start", "chain:empty-piece:empty-string:end:running-value",
+                         "after-prior:none:first=*", "after-prior:printf-len:first=md5", "after-prior:printf-len:first=sha1",
+                         "after-prior:printf-len:first=sha256", "after-prior:printf-run:first=*", "after-prior:join:first=*",
+                         "after-prior:split:first=*", "after-prior:fgets:first=*", "after-prior:escape:first=*",
+                         "after-prior:format:first=*", "after-prior:hash-hex:first=*", "after-prior:two-step:first=*",
                          "seeded:value:*", "mt:concurrent:8threads:*:mod64=55:*", "mt:concurrent:8threads:*:mod64=56:*",
                          "mt:concurrent:8threads:*:mod64=0:multi", "tsan:concurrent:8threads:*:mod64=55:*"],
     "exhaustive": {"quick": False, "thorough": False},
@@ -70,6 +81,8 @@ SPEC = {
         "hex() is compared case-insensitively (phosg prints upper case; the statement fixes the digest, not the letter case)",
         "an empty piece of a chain may be passed as (nullptr, 0): the seeded functions must then return the running value unchanged "
         "(HashTest itself calls crc32/fnv1a32/fnv1a64(nullptr, 0))",
+        "prior-history: the earlier uses are those of the shared catalogue harness/vf_history.hh (one or two per fresh thread); "
+        "state that needs a longer or different history on the same thread is not reached",
         "concurrency: the hash functions are pure functions of their arguments; the schedules seen are those the OS produced for "
         "8 free-running threads per process (no controlled scheduler), TSan reports races on the executions it saw",
     ],
